@@ -1,4 +1,345 @@
 /- helper lemmas for the Merkle part of C07 -/
 import MelModel.Merkle
 namespace Mel.Merkle
+
+/-! ### zero rules -/
+
+@[simp] theorem hashData_nil (H : Hashers) : hashData H [] = Z := by simp [hashData]
+@[simp] theorem hashNode_ZZ (H : Hashers) : hashNode H Z Z = Z := by simp [hashNode]
+
+theorem rootOf_empty (H : Hashers) (n : Nat) : rootOf H n (fun _ => []) = Z := by
+  induction n with
+  | zero => simp [rootOf]
+  | succ n ih => simp [rootOf, ih]
+
+theorem rootOf_congr (H : Hashers) (n : Nat) (c₁ c₂ : List Bool → Bytes)
+    (hc : ∀ k, k.length = n → c₁ k = c₂ k) : rootOf H n c₁ = rootOf H n c₂ := by
+  induction n generalizing c₁ c₂ with
+  | zero => simp [rootOf, hc [] rfl]
+  | succ n ih =>
+    simp only [rootOf]
+    rw [ih (fun k => c₁ (false :: k)) (fun k => c₂ (false :: k)) (fun k hk => hc _ (by simp [hk])),
+      ih (fun k => c₁ (true :: k)) (fun k => c₂ (true :: k)) (fun k hk => hc _ (by simp [hk]))]
+
+namespace Tree
+
+@[simp] theorem get_empty (k : List Bool) : Tree.empty.get k = [] := by
+  cases k <;> rfl
+
+theorem hash_eq_rootOf (H : Hashers) (n : Nat) (t : Tree) (h : t.WF n) : t.hash H = rootOf H n t.get := by
+  induction n generalizing t with
+  | zero =>
+    cases t with
+    | empty => simp [Tree.hash, rootOf]
+    | leaf v => simp [Tree.hash, rootOf, Tree.get]
+    | node l r => simp [Tree.WF] at h
+  | succ n ih =>
+    cases t with
+    | empty => simp [Tree.hash, rootOf, rootOf_empty]
+    | leaf v => simp [Tree.WF] at h
+    | node l r =>
+      simp only [Tree.WF] at h
+      simp [Tree.hash, rootOf, Tree.get, ih l h.1, ih r h.2]
+
+theorem empty_insert_wf (k : List Bool) (v : Bytes) : (Tree.empty.insert k v).WF k.length := by
+  induction k with
+  | nil => simp only [Tree.insert]; split <;> simp [Tree.WF]
+  | cons b k ih => cases b <;> simp [Tree.insert, Tree.WF, ih]
+
+theorem empty_insert_get (k k' : List Bool) (v : Bytes) (hk : k'.length = k.length) :
+    (Tree.empty.insert k v).get k' = if k' = k then v else [] := by
+  induction k generalizing k' with
+  | nil =>
+    cases k' with
+    | nil => simp only [Tree.insert]; split <;> simp_all [Tree.get]
+    | cons _ _ => simp at hk
+  | cons b k ih =>
+    cases k' with
+    | nil => simp at hk
+    | cons b' k' =>
+      simp at hk
+      cases b <;> cases b' <;> simp [Tree.insert, Tree.get, ih k' hk]
+
+theorem insert_wf (n : Nat) (t : Tree) (k : List Bool) (v : Bytes) (h : t.WF n) (hk : k.length = n) :
+    (t.insert k v).WF n := by
+  induction n generalizing t k with
+  | zero =>
+    cases k with
+    | nil => simp only [Tree.insert]; split <;> simp [Tree.WF]
+    | cons _ _ => simp at hk
+  | succ n ih =>
+    cases k with
+    | nil => simp at hk
+    | cons b k =>
+      simp at hk
+      cases t with
+      | empty =>
+        have := empty_insert_wf k v
+        rw [hk] at this
+        cases b <;> simp [Tree.insert, Tree.WF, this]
+      | leaf _ => simp [Tree.WF] at h
+      | node l r =>
+        simp only [Tree.WF] at h
+        cases b <;> simp [Tree.insert, Tree.WF, h.1, h.2, ih _ _ h.1 hk, ih _ _ h.2 hk]
+
+theorem get_insert (n : Nat) (t : Tree) (k k' : List Bool) (v : Bytes) (h : t.WF n) (hk : k.length = n)
+    (hk' : k'.length = n) : (t.insert k v).get k' = if k' = k then v else t.get k' := by
+  induction n generalizing t k k' with
+  | zero =>
+    cases k with
+    | cons _ _ => simp at hk
+    | nil =>
+      cases k' with
+      | cons _ _ => simp at hk'
+      | nil => simp only [Tree.insert]; split <;> simp_all [Tree.get]
+  | succ n ih =>
+    cases k with
+    | nil => simp at hk
+    | cons b k =>
+      cases k' with
+      | nil => simp at hk'
+      | cons b' k' =>
+        simp at hk hk'
+        cases t with
+        | empty =>
+          have := empty_insert_get k k' v (by omega)
+          cases b <;> cases b' <;> simp [Tree.insert, Tree.get, this]
+        | leaf _ => simp [Tree.WF] at h
+        | node l r =>
+          simp only [Tree.WF] at h
+          cases b <;> cases b' <;> simp [Tree.insert, Tree.get, ih _ _ _ h.1 hk hk', ih _ _ _ h.2 hk hk']
+
+end Tree
+
+/-! ### proofs: completeness -/
+
+/-- the fold performed by `verify` -/
+def vfold (H : Hashers) (proof : List Hash) (key : List Bool) (v : Bytes) : Hash :=
+  (List.zip proof key).foldr (fun e acc => if e.2 then hashNode H e.1 acc else hashNode H acc e.1) (hashData H v)
+
+theorem verify_eq (H : Hashers) (root : Hash) (key : List Bool) (v : Bytes) (proof : List Hash) :
+    verify H root key v proof = (root == vfold H proof key v) := rfl
+
+theorem verify_iff (H : Hashers) (root : Hash) (key : List Bool) (v : Bytes) (proof : List Hash) :
+    verify H root key v proof = true ↔ root = vfold H proof key v := by
+  rw [verify_eq]; exact beq_iff_eq
+
+@[simp] theorem vfold_nil (H : Hashers) (v : Bytes) : vfold H [] [] v = hashData H v := rfl
+
+@[simp] theorem vfold_cons (H : Hashers) (s : Hash) (p : List Hash) (b : Bool) (k : List Bool) (v : Bytes) :
+    vfold H (s :: p) (b :: k) v = if b then hashNode H s (vfold H p k v) else hashNode H (vfold H p k v) s := rfl
+
+/-- left / right subtree, viewing `.empty` as a node of two empties -/
+def Tree.left : Tree → Tree
+  | .node l _ => l
+  | _ => .empty
+def Tree.right : Tree → Tree
+  | .node _ r => r
+  | _ => .empty
+def Tree.child (t : Tree) (b : Bool) : Tree := if b then t.right else t.left
+
+namespace Tree
+
+theorem child_wf (n : Nat) (t : Tree) (b : Bool) (h : t.WF (n + 1)) : (t.child b).WF n := by
+  cases t with
+  | empty => cases b <;> simp [child, left, right, WF]
+  | leaf _ => simp [WF] at h
+  | node l r => simp only [WF] at h; cases b <;> simp [child, left, right, h.1, h.2]
+
+theorem hash_succ (H : Hashers) (n : Nat) (t : Tree) (h : t.WF (n + 1)) :
+    t.hash H = hashNode H (t.left.hash H) (t.right.hash H) := by
+  cases t with
+  | empty => simp [left, right, hash]
+  | leaf _ => simp [WF] at h
+  | node l r => simp [left, right, hash]
+
+theorem get_cons (n : Nat) (t : Tree) (b : Bool) (k : List Bool) (h : t.WF (n + 1)) :
+    t.get (b :: k) = (t.child b).get k := by
+  cases t with
+  | empty => cases b <;> simp [child, left, right]
+  | leaf _ => simp [WF] at h
+  | node l r => cases b <;> simp [child, left, right, get]
+
+theorem prove_cons (H : Hashers) (n : Nat) (t : Tree) (b : Bool) (k : List Bool) (h : t.WF (n + 1)) :
+    t.prove H (b :: k) = (t.child (!b)).hash H :: (t.child b).prove H k := by
+  cases t with
+  | empty => cases b <;> simp [child, left, right, prove, hash]
+  | leaf _ => simp [WF] at h
+  | node l r => cases b <;> simp [child, left, right, prove]
+
+theorem prove_length (H : Hashers) (t : Tree) (k : List Bool) : (t.prove H k).length = k.length := by
+  induction k generalizing t with
+  | nil => simp [prove]
+  | cons b k ih => cases t <;> cases b <;> simp [prove, ih]
+
+theorem prove_fold (H : Hashers) (n : Nat) (t : Tree) (k : List Bool) (h : t.WF n) (hk : k.length = n) :
+    vfold H (t.prove H k) k (t.get k) = t.hash H := by
+  induction n generalizing t k with
+  | zero =>
+    cases k with
+    | cons _ _ => simp at hk
+    | nil =>
+      cases t with
+      | empty => simp [prove, hash]
+      | leaf v => simp [prove, hash, get]
+      | node _ _ => simp [WF] at h
+  | succ n ih =>
+    cases k with
+    | nil => simp at hk
+    | cons b k =>
+      simp at hk
+      rw [prove_cons H n t b k h, get_cons n t b k h, vfold_cons, ih _ _ (child_wf n t b h) hk, hash_succ H n t h]
+      cases b <;> simp [child]
+
+end Tree
+
+/-! ### proofs: soundness -/
+
+/-- injectivity of the raw hash functions away from the zero rules (mirror of `Mel.Injective`) -/
+structure Inj (H : Hashers) : Prop where
+  data_inj : ∀ a b, a ≠ [] → b ≠ [] → H.hData a = H.hData b → a = b
+  data_nz : ∀ a, a ≠ [] → H.hData a ≠ Z
+  node_inj : ∀ l r l' r', ¬(l = Z ∧ r = Z) → ¬(l' = Z ∧ r' = Z) → H.hNode l r = H.hNode l' r' → l = l' ∧ r = r'
+  node_nz : ∀ l r, ¬(l = Z ∧ r = Z) → H.hNode l r ≠ Z
+
+theorem hashData_inj (H : Hashers) (hi : Inj H) (a b : Bytes) (h : hashData H a = hashData H b) : a = b := by
+  unfold hashData at h
+  by_cases ha : a = [] <;> by_cases hb : b = []
+  · rw [ha, hb]
+  · simp only [ha, hb, if_true, if_false] at h; exact absurd h.symm (hi.data_nz b hb)
+  · simp only [ha, hb, if_true, if_false] at h; exact absurd h (hi.data_nz a ha)
+  · simp only [ha, hb, if_false] at h; exact hi.data_inj a b ha hb h
+
+theorem hashNode_inj (H : Hashers) (hi : Inj H) (l r l' r' : Hash) (h : hashNode H l r = hashNode H l' r') :
+    l = l' ∧ r = r' := by
+  unfold hashNode at h
+  by_cases ha : (l = Z ∧ r = Z) <;> by_cases hb : (l' = Z ∧ r' = Z)
+  · exact ⟨ha.1.trans hb.1.symm, ha.2.trans hb.2.symm⟩
+  · rw [if_pos ha, if_neg hb] at h; exact absurd h.symm (hi.node_nz l' r' hb)
+  · rw [if_neg ha, if_pos hb] at h; exact absurd h (hi.node_nz l r ha)
+  · rw [if_neg ha, if_neg hb] at h; exact hi.node_inj l r l' r' ha hb h
+
+namespace Tree
+
+theorem fold_sound (H : Hashers) (hi : Inj H) (n : Nat) (t : Tree) (k : List Bool) (v : Bytes)
+    (proof : List Hash) (h : t.WF n) (hk : k.length = n) (hp : proof.length = n)
+    (hv : t.hash H = vfold H proof k v) : t.get k = v := by
+  induction n generalizing t k proof with
+  | zero =>
+    cases k with
+    | cons _ _ => simp at hk
+    | nil =>
+      cases proof with
+      | cons _ _ => simp at hp
+      | nil =>
+        rw [vfold_nil] at hv
+        cases t with
+        | empty =>
+          have hv' : hashData H [] = hashData H v := by rw [hashData_nil]; exact hv
+          simpa using hashData_inj H hi _ _ hv'
+        | leaf w => simpa [get] using hashData_inj H hi _ _ hv
+        | node _ _ => simp [WF] at h
+  | succ n ih =>
+    cases k with
+    | nil => simp at hk
+    | cons b k =>
+      cases proof with
+      | nil => simp at hp
+      | cons s p =>
+        simp at hk hp
+        rw [hash_succ H n t h, vfold_cons] at hv
+        rw [get_cons n t b k h]
+        cases b with
+        | false =>
+          simp only [Bool.false_eq_true, if_false] at hv
+          exact ih _ _ _ (child_wf n t false h) hk hp (hashNode_inj H hi _ _ _ _ hv).1
+        | true =>
+          simp only [if_true] at hv
+          exact ih _ _ _ (child_wf n t true h) hk hp (hashNode_inj H hi _ _ _ _ hv).2
+
+end Tree
+
+/-! ### dense tree -/
+
+theorem xor_one_eq (i : Nat) : i ^^^ 1 = if i % 2 = 1 then 2 * (i / 2) else 2 * (i / 2) + 1 := by
+  have h1 := Nat.xor_div_two (a := i) (b := 1)
+  have h2 := @Nat.xor_mod_two_eq_one i 1
+  simp only [Nat.reduceDiv, Nat.xor_zero, Nat.reduceMod, iff_true] at h1 h2
+  split <;> omega
+
+theorem pairUp_length (H : Hashers) (lvl : List Hash) : (pairUp H lvl).length = lvl.length / 2 := by
+  fun_induction pairUp H lvl with
+  | case1 a b rest ih => simp [ih]; omega
+  | case2 lvl hne =>
+    match lvl, hne with
+    | [], _ => simp
+    | [_], _ => simp
+    | a :: b :: rest, hne => exact absurd rfl (hne a b rest)
+
+theorem pairUp_getD (H : Hashers) (lvl : List Hash) (j : Nat) (hj : 2 * j + 1 < lvl.length) :
+    (pairUp H lvl).getD j Z = hashNode H (lvl.getD (2 * j) Z) (lvl.getD (2 * j + 1) Z) := by
+  induction j generalizing lvl with
+  | zero =>
+    match lvl, hj with
+    | a :: b :: rest, _ => simp [pairUp]
+  | succ j ih =>
+    match lvl, hj with
+    | a :: b :: rest, hj =>
+      simp at hj
+      have := ih rest (by omega)
+      simp only [pairUp, List.getD_cons_succ, this, Nat.mul_add, Nat.mul_one]
+
+/-- the step of `verifyDense` -/
+def dstep (H : Hashers) (acc : Hash × Nat) (elem : Hash) : Hash × Nat :=
+  (if acc.2 % 2 = 1 then hashNode H elem acc.1 else hashNode H acc.1 elem, acc.2 / 2)
+
+theorem dense_levels (H : Hashers) (d : Nat) (lvl : List Hash) (i : Nat) (hl : lvl.length = 2 ^ d) (hi : i < 2 ^ d) :
+    ((denseProofLevels H d lvl i).foldl (dstep H) (lvl.getD i Z, i)).1 = (reduce H d lvl).headD Z := by
+  induction d generalizing lvl i with
+  | zero =>
+    simp at hl hi
+    subst hi
+    match lvl, hl with
+    | [a], _ => simp [denseProofLevels, reduce]
+  | succ d ih =>
+    have hlen : (pairUp H lvl).length = 2 ^ d := by rw [pairUp_length, hl, Nat.pow_succ]; omega
+    have hi2 : i / 2 < 2 ^ d := by rw [Nat.pow_succ] at hi; omega
+    have hstep : dstep H (lvl.getD i Z, i) (lvl.getD (i ^^^ 1) Z) = ((pairUp H lvl).getD (i / 2) Z, i / 2) := by
+      rw [pairUp_getD H lvl (i / 2) (by rw [hl, Nat.pow_succ]; omega), xor_one_eq]
+      unfold dstep
+      by_cases hodd : i % 2 = 1
+      · have : 2 * (i / 2) + 1 = i := by omega
+        simp [hodd, this]
+      · have : 2 * (i / 2) = i := by omega
+        simp [hodd, this]
+    simp only [denseProofLevels, List.foldl_cons, reduce, hstep]
+    exact ih (pairUp H lvl) (i / 2) hlen hi2
+
+theorem nextPow2_spec (m : Nat) : ∃ e, nextPow2 m = 2 ^ e ∧ m ≤ 2 ^ e := by
+  unfold nextPow2
+  split
+  · exact ⟨0, rfl, by omega⟩
+  · refine ⟨Nat.log2 (m - 1) + 1, rfl, ?_⟩
+    have := @Nat.lt_log2_self (m - 1)
+    omega
+
+theorem denseLeaves_length (H : Hashers) (blocks : List Bytes) :
+    ∃ e, (denseLeaves H blocks).length = 2 ^ e ∧ blocks.length ≤ 2 ^ e := by
+  obtain ⟨e, he, hle⟩ := nextPow2_spec blocks.length
+  refine ⟨e, ?_, hle⟩
+  simp [denseLeaves, he]
+  omega
+
+theorem denseLeaves_getD (H : Hashers) (blocks : List Bytes) (i : Nat) (hi : i < blocks.length) :
+    (denseLeaves H blocks).getD i Z = hashData H (blocks.getD i []) := by
+  simp [denseLeaves, List.getD_eq_getElem?_getD, List.getElem?_append_left, hi]
+
+theorem dense_complete (H : Hashers) (blocks : List Bytes) (i : Nat) (hi : i < blocks.length) :
+    verifyDense H (denseProof H blocks i) (denseRoot H blocks) i (hashData H (blocks.getD i [])) = true := by
+  obtain ⟨e, he, hle⟩ := denseLeaves_length H blocks
+  have := dense_levels H e (denseLeaves H blocks) i he (by omega)
+  rw [denseLeaves_getD H blocks i hi] at this
+  simp only [verifyDense, denseProof, denseRoot, he, Nat.log2_two_pow]
+  exact beq_iff_eq.mpr this
+
 end Mel.Merkle
